@@ -66,9 +66,14 @@ def random_config(rng, kind, **force):
                init=rng.random() < 0.35, objective=rng.choice(["onemax", "plateau", "const", "neg", "weighted", "first"]),
                scale=rng.choice([1.0, 1.0, 2.0 ** 40, 0.125]), opt_mode=rng.choice(["none", "none", "first", "mid", "never"]),
                err=rng.choice([0.0, 0.125, 1.0]), nin=rng.choice([None, None, 0, 1, 2, 50]), str_len=rng.randint(4, 8),
-               dim=rng.randint(1, 3), keep_history=True)
+               dim=rng.randint(1, 3), keep_history=True, offset=rng.choice([0.0, 0.0, 0.0, 2.0 ** 50, -(2.0 ** 50)]),
+               strategy=rng.choice(["best_1", "rand_1", "current_to_best_1", "rand_to_best1", "best_2", "rand_2"]))
+    if cfg["offset"] != 0.0:
+        cfg["err"] = rng.choice([0.0, 1.0])      # keep sign*optimal_value - err exactly representable next to 2^50
     if kind in TREES:
         cfg["objective"] = rng.choice(["onemax", "const", "plateau"])   # Objective maps trees to len(tree)
+    if kind in ("DifferentialEvolution", "jDE", "SHADE") and rng.random() < 0.25:
+        cfg["objective"], cfg["scale"] = "view", 1.0      # the objective returns a view of the population it was handed
     cfg.update(force)
     return cfg
 
@@ -134,7 +139,8 @@ def run_trace(cfg):
     import random as _r
     rng_init = _r.Random(cfg["seed"] ^ 0x5bd1e995)
     kind = cfg["kind"]
-    obj = L.Objective(cfg["objective"], scale=cfg["scale"])
+    off = cfg.get("offset", 0.0) if abs(cfg["scale"]) <= 2.0 and cfg["objective"] != "view" else 0.0   # keep values exact integers
+    obj = L.Objective(cfg["objective"], scale=cfg["scale"], offset=off)
     g2p = G2P(kind) if cfg["g2p"] else None
     snaps = []
     holder = {}
